@@ -46,6 +46,58 @@ def fold_case(n, fold, with_gaps, length, reps, seed):
     return None
 
 
+def sequence_case(n, with_gaps, markov, order, seed):
+    """several episodes on ONE transmitter (each run to its end through _next), over different folds and with / without an episode
+    length: what an episode visits must not depend on the episodes before it"""
+    a = ETF("AAA")
+    grid = [D0 + timedelta(days=i) for i in range(n)]
+    folds = {"late": [grid[n // 2], grid[-1]], "early": [grid[0], grid[n // 2 - 1]], "mid": [grid[2], grid[n - 3]], "all": [grid[0], grid[-1]]}
+    tr = Transmitter(list(grid), folds, markov)
+    bearing = [g for i, g in enumerate(grid) if not (with_gaps and i % 3 == 1)]
+    for g in bearing:
+        tr.add_events([EventNBBO(g, a, 10, 10)])
+    np.random.seed(seed)
+    for k, (fold, length) in enumerate(order):
+        lo, hi = folds[fold]
+        in_fold = [g for g in bearing if lo <= g <= hi]
+        try:
+            tr._reset(fold, length)
+        except ValueError:
+            if length is not None and len(in_fold) >= length:
+                return {"problem": "fitting episode refused", "episode": k, "fold": fold, "length": length}
+            continue
+        steps = [pd.Timestamp(x).to_pydatetime() for x in tr._steps]
+        if length is None:
+            if steps != in_fold:
+                return {"problem": "not the fold's event-bearing timesteps", "episode": k, "fold": fold, "got": [str(x.date()) for x in steps],
+                        "want": [str(x.date()) for x in in_fold]}
+        else:
+            i0 = in_fold.index(steps[0]) if steps and steps[0] in in_fold else -1
+            if len(steps) != length or i0 < 0 or steps != in_fold[i0:i0 + length]:
+                return {"problem": "not %d consecutive event-bearing timesteps of the fold" % length, "episode": k, "fold": fold,
+                        "got": [str(x.date()) for x in steps]}
+        visited = 0
+        while True:
+            try:
+                tr._next()
+            except StopIteration:
+                break
+            visited += 1
+            if visited > n + 2:
+                return {"problem": "episode does not end", "episode": k}
+        if visited != len(steps):
+            return {"problem": "visited %d timesteps, planned %d" % (visited, len(steps)), "episode": k, "fold": fold}
+    return None
+
+
+ORDERS = [
+    [("late", None), ("early", None), ("all", None)],                 # a later fold first, then the history it replayed
+    [("all", 3), ("all", None), ("mid", None)],                      # a sampled window, then plain resets
+    [("mid", 4), ("mid", 4), ("mid", None), ("late", 2), ("late", None)],
+    [("early", None), ("early", None), ("late", 3), ("early", None)],
+]
+
+
 def wf_case(n, train, test, sliding):
     tr = Transmitter([D0 + timedelta(days=i) for i in range(n)])
     f = tr.walk_forward(train, test, sliding)
@@ -67,7 +119,7 @@ def wf_case(n, train, test, sliding):
 def folds(tier, seed):
     acc = Acc("folds: grids of 10/14 points (with and without event-less timesteps), fold windows, episode lengths None/1..fold size+1, "
               "seeded resets (200 per case when coverage is checked); walk-forward: n in 10..40, train 1..10, test 1..6, sliding and "
-              "expanding; non-trivial = distinct case", "<= 40 timesteps")
+              "expanding; sequences of 3-5 episodes on one transmitter over different folds / lengths, each run to its end; non-trivial = distinct case", "<= 40 timesteps")
     for n in (10, 14):
         for fold in ((2, 7), (0, n - 1), (3, 3)):
             for gaps in (False, True):
@@ -82,6 +134,17 @@ def folds(tier, seed):
                     if p:
                         acc.fail("C15::shell::episode_inside_fold", "c15_folds", {"case": "fold", "n": n, "fold": list(fold), "gaps": gaps,
                                                                                   "length": length, "reps": reps, "seed": seed}, p)
+    for n in (10, 13):
+        for gaps in (False, True):
+            for markov in (False, True):
+                for oi, order in enumerate(ORDERS):
+                    for sd in ((seed,) if tier == "quick" else (seed, seed + 1, seed + 2)):
+                        p = sequence_case(n, gaps, markov, order, sd)
+                        acc.case(("sequence", n, gaps, markov, oi, sd), sample={"n": n, "gaps": gaps, "markov": markov, "episodes": order} if (n, gaps, markov, oi) == (10, True, False, 0) else None)
+                        acc.validated += len(order)
+                        if p:
+                            acc.fail("C15::shell::episode_independent_of_earlier_episodes", "c15_folds",
+                                     {"case": "sequence", "n": n, "gaps": gaps, "markov": markov, "order": oi, "seed": sd}, p)
     rng = range(10, 41, 6) if tier == "quick" else range(10, 41)
     for n in rng:
         for train in range(1, 11, (3 if tier == "quick" else 1)):
@@ -98,6 +161,9 @@ def folds(tier, seed):
 
 
 def rerun(inp):
+    if inp["case"] == "sequence":
+        p = sequence_case(inp["n"], inp["gaps"], inp["markov"], ORDERS[inp["order"]], inp["seed"])
+        return {"reproduced": bool(p), "failing": p}
     if inp["case"] == "fold":
         p = fold_case(inp["n"], tuple(inp["fold"]), inp["gaps"], inp["length"], inp["reps"], inp["seed"])
     else:
